@@ -21,7 +21,7 @@ from . import fitsim, stepsim
 
 PROPERTY = "C08"
 TIERS = {
-    "quick": {"runs": 400, "budget_s": 110, "chunk": 4},
+    "quick": {"runs": 1200, "budget_s": 110, "chunk": 4},
     "thorough": {"runs": 12000, "budget_s": 900, "chunk": 8},
 }
 REQUIRED_PROBES = {
@@ -64,6 +64,9 @@ def wv(t):
 def compare_state(kind, variables, indep, reader, pop_names, ind_names, out, where, C):
     """Compare every likelihood term readable through `reader(name)` with its float64 closed form."""
     info = workload.kind_info(kind)
+    if not bridge.within_float32_exp_range(indep, list(pop_names) + list(ind_names)):
+        C["skip.float32_exp_range"] += 1
+        return
     try:
         rt = bridge.ref_terms(kind, variables, indep, pop_names, ind_names)
     except Exception as e:
